@@ -77,6 +77,11 @@ def entries(level='quick'):
             # integer constructor arguments (`scale=2`)
             Entry('AffineInt%s' % shape, 'nonlin', lambda: T.PointwiseAffineTransform(shift=-1, scale=2), shape, extra={'cls': 'Affine'}),
         ]
+    if not full:
+        # a learnt temperature on an event with more than one non-batch dimension; one-dimensional events
+        E.append(Entry('SigmoidT.7[2, 1, 2]', 'nonlin', lambda: T.Sigmoid(temperature=0.7, learn_temperature=True), [2, 1, 2], dom_inv=(0.0, 1.0), extra={'cls': 'Sigmoid'}))
+        E.append(Entry('Sigmoid1.6[2, 2]', 'nonlin', lambda: T.Sigmoid(temperature=1.6), [2, 2], dom_inv=(0.0, 1.0), extra={'cls': 'Sigmoid'}))
+        E.append(Entry('LogTanh2[1]', 'nonlin', lambda: T.LogTanh(cut_point=2), [1], extra={'cls': 'LogTanh'}))
     # ---- PointwiseAffineTransform with tensor-valued scale / shift (broadcast over the event shape)
     def aff(scale_shape, shift_shape):
         def build():
@@ -216,6 +221,25 @@ def entries(level='quick'):
                                        use_residual_blocks=resid)),
                                    [Fd], ctx=ctx, dom_fwd=None if tails else (0.0, 1.0), dom_inv=None if tails else (0.0, 1.0),
                                    spline=_spl('rq', tails, 4, B), extra={'akind': 'rq'}))
+    if not full:
+        for resid in (True, False):
+            tag = 'F1/ctxNone/%s' % ('res' if resid else 'ff')
+            E.append(Entry('MaskedAffineAR/' + tag, 'ar',
+                           (lambda resid=resid: T.MaskedAffineAutoregressiveTransform(1, 6, num_blocks=1, use_residual_blocks=resid)), [1], extra={'akind': 'araffine'}))
+            E.append(Entry('MaskedRQAR/tails/' + tag, 'ar',
+                           (lambda resid=resid: T.MaskedPiecewiseRationalQuadraticAutoregressiveTransform(
+                               1, 6, num_bins=4, num_blocks=1, tails='linear', tail_bound=3.0, use_residual_blocks=resid)),
+                           [1], spline=_spl('rq', 'linear', 4, 3.0), extra={'akind': 'rq'}))
+    # non-default minimal bin sizes (different for widths and heights) on the class level
+    E.append(Entry('quadCDF/tails3/K4[2]/mins', 'cdf',
+                   (lambda: T.PiecewiseQuadraticCDF([2], num_bins=4, tails='linear', tail_bound=3.0, min_bin_width=0.02, min_bin_height=0.05)),
+                   [2], spline=_spl('quad', 'linear', 4, 3.0)))
+    E.append(Entry('cubicCDF/tails3/K4[2]/mins', 'cdf',
+                   (lambda: T.PiecewiseCubicCDF([2], num_bins=4, tails='linear', tail_bound=3.0, min_bin_width=0.03, min_bin_height=0.08)),
+                   [2], spline=_spl('cubic', 'linear', 4, 3.0)))
+    E.append(Entry('rqCDF/tails3/K4[2]/mins', 'cdf',
+                   (lambda: T.PiecewiseRationalQuadraticCDF([2], num_bins=4, tails='linear', tail_bound=3.0, min_bin_width=0.03, min_bin_height=0.08, min_derivative=0.05)),
+                   [2], spline=_spl('rq', 'linear', 4, 3.0)))
     # MADE conditioners with batch norm and dropout (feed-forward and residual blocks)
     for resid in (True, False):
         tag = 'F3/ctxNone/%s+bn+do' % ('res' if resid else 'ff')
